@@ -9,6 +9,54 @@ import (
 	"verif/vlib"
 )
 
+// stack0 is the stack a player started the betting round with, derived from
+// chips that cannot be disputed (bankroll minus what is already in the pot)
+// rather than read from the engine's initial_stack_size field.
+func stack0(p *pf.PlayerState) int64 { return p.Bankroll - p.Pot }
+
+// miniBet is the minimum bet of the table: the larger of big blind and dealer blind.
+func miniBet(c *Cfg) int64 { return maxI64(c.BB, c.DB) }
+
+// minRaiseBook keeps "the size of the previous bet or raise of the round (the
+// big blind before any)": a bet sets it, a raise or all-in that lifts the wager
+// to match by at least that much replaces it, anything smaller (a short all-in, a
+// call) leaves it alone.
+type minRaiseBook struct {
+	minR  int64
+	known bool
+}
+
+func (b *minRaiseBook) observe(h *Hand, t *Trans) {
+	post := t.Post
+	if t.Op.K == "ready" && t.Err == nil && post.Status.CurrentEvent == "RoundStarted" {
+		b.known = true
+		b.minR = 0
+		if post.Status.Round == "preflop" {
+			b.minR = h.Cfg.BB
+		}
+		return
+	}
+	if t.Op.K != "act" || t.Err != nil || !b.known {
+		return
+	}
+	cw := t.Pre.Status.CurrentWager
+	inc := post.Status.CurrentWager - cw
+	if inc <= 0 {
+		return
+	}
+	switch {
+	case t.Op.A == "bet":
+		b.minR = inc
+	case t.Op.A == "raise" && t.Op.X == cw:
+		// Raise(level == wager to match) is carried out as a call; a call that
+		// is completed to one big blind lifts the wager but is no raise
+	case t.Op.A == "raise" || t.Op.A == "allin":
+		if inc >= b.minR {
+			b.minR = inc
+		}
+	}
+}
+
 // amtClass names the class of the amount argument of a bet/raise request.
 func amtClass(op Op, pre *pf.GameState) string {
 	if op.A != "bet" && op.A != "raise" {
@@ -46,9 +94,9 @@ func amtClass(op Op, pre *pf.GameState) string {
 		return "below-wager"
 	case x == cw:
 		return "at-wager"
-	case x > p.InitialStackSize:
+	case x > stack0(p):
 		return "above-stack"
-	case x == p.InitialStackSize:
+	case x == stack0(p):
 		return "at-stack"
 	case x-cw < prs:
 		return "undersized"
@@ -79,6 +127,11 @@ func (m *chipsMon) Begin(h *Hand, gs *pf.GameState) *vlib.Violation {
 }
 
 func (m *chipsMon) Observe(h *Hand, t *Trans) *vlib.Violation {
+	for i, p := range t.Post.Players {
+		if i < len(h.Cfg.Bank) && p.Bankroll != h.Cfg.Bank[i] {
+			return vlib.V("C01", "bankroll-changed/"+opSig(t.Op, t.Pre), "after %s seat %d shows a bankroll of %d, the hand started with %d", t.Op, i, p.Bankroll, h.Cfg.Bank[i])
+		}
+	}
 	return checkChips(t.Post, opSig(t.Op, t.Pre), fmt.Sprintf("after %s (err=%v)", t.Op, t.Err))
 }
 
@@ -170,9 +223,7 @@ func (m *chipsMon) End(h *Hand, gs *pf.GameState) *vlib.Violation {
 // all-in, a call) leaves it alone. The engine's own previous_raise_size field is
 // compared with the book, not trusted.
 type raiseMon struct {
-	street string
-	minR   int64 // minimum raise by the book
-	known  bool
+	book minRaiseBook
 }
 
 func (m *raiseMon) Begin(h *Hand, gs *pf.GameState) *vlib.Violation { return nil }
@@ -198,15 +249,9 @@ func (m *raiseMon) Observe(h *Hand, t *Trans) *vlib.Violation {
 	if post.Status.CurrentRoundPot < 0 {
 		return vlib.V("C12", "negative-pot/"+sig, "after %s: round pot %d", t.Op, post.Status.CurrentRoundPot)
 	}
-	// a new betting round: the book starts at the big blind before the flop, at
-	// nothing afterwards (the first bet of the round sets it)
-	if t.Op.K == "ready" && t.Err == nil && post.Status.CurrentEvent == "RoundStarted" {
-		m.street, m.known = post.Status.Round, true
-		m.minR = 0
-		if m.street == "preflop" {
-			m.minR = h.Cfg.BB
-		}
-	}
+	book := m.book.minR
+	known := m.book.known
+	defer m.book.observe(h, t)
 	if t.Op.K != "act" {
 		return nil
 	}
@@ -218,33 +263,15 @@ func (m *raiseMon) Observe(h *Hand, t *Trans) *vlib.Violation {
 	cp := pre.Status.CurrentPlayer
 	bp, ap := pre.Players[cp], post.Players[cp]
 	inc := post.Status.CurrentWager - cw
-	book := m.minR
-	defer func() {
-		// keep the book
-		if t.Err != nil || !m.known || inc <= 0 {
-			return
-		}
-		switch {
-		case t.Op.A == "bet":
-			m.minR = inc
-		case t.Op.A == "raise" && t.Op.X == cw:
-			// Raise(level == wager to match) is carried out as a call; a call that
-			// is completed to one big blind lifts the wager but is no raise
-		case t.Op.A == "raise" || t.Op.A == "allin":
-			if inc >= m.minR {
-				m.minR = inc
-			}
-		}
-	}()
 	if t.Op.A != "raise" && t.Op.A != "bet" {
 		return nil
 	}
 	x := t.Op.X
 	cls := amtClass(t.Op, pre)
 	h.St.Class("request:" + t.Op.A + "(" + cls + ")")
-	if t.Op.A == "raise" && hasStr(bp.AllowedActions, "raise") && m.known {
+	if t.Op.A == "raise" && hasStr(bp.AllowedActions, "raise") && known {
 		d := func() string {
-			return fmt.Sprintf("%s [%s] err=%v | minimum raise by the book %d | before: wager=%d stack0=%d cw=%d prs=%d | after: wager=%d stack=%d cw=%d prs=%d raiser=%d event=%s", t.Op, cls, t.Err, book, bp.Wager, bp.InitialStackSize, cw, pre.Status.PreviousRaiseSize, ap.Wager, ap.StackSize, post.Status.CurrentWager, post.Status.PreviousRaiseSize, post.Status.CurrentRaiser, post.Status.CurrentEvent)
+			return fmt.Sprintf("%s [%s] err=%v | minimum raise by the book %d | before: wager=%d stack0=%d cw=%d prs=%d | after: wager=%d stack=%d cw=%d prs=%d raiser=%d event=%s", t.Op, cls, t.Err, book, bp.Wager, stack0(bp), cw, pre.Status.PreviousRaiseSize, ap.Wager, ap.StackSize, post.Status.CurrentWager, post.Status.PreviousRaiseSize, post.Status.CurrentRaiser, post.Status.CurrentEvent)
 		}
 		if book != pre.Status.PreviousRaiseSize {
 			h.St.Class("book-differs-from-engine-field")
@@ -255,7 +282,7 @@ func (m *raiseMon) Observe(h *Hand, t *Trans) *vlib.Violation {
 			}
 			return nil
 		}
-		if pre.Meta.Limit == "no" && x > cw && x < bp.InitialStackSize && x-cw >= book {
+		if pre.Meta.Limit == "no" && x > cw && x < stack0(bp) && x-cw >= book {
 			if t.Err != nil {
 				return vlib.V("C12", "legal-raise-refused/"+cls, "%s", d())
 			}
@@ -280,13 +307,15 @@ func (m *raiseMon) Observe(h *Hand, t *Trans) *vlib.Violation {
 // C11 — offered actions fit the situation and do what they say
 // ---------------------------------------------------------------------------
 
-type offerMon struct{}
+type offerMon struct {
+	book minRaiseBook
+}
 
 func (m *offerMon) Begin(h *Hand, gs *pf.GameState) *vlib.Violation { return nil }
 func (m *offerMon) End(h *Hand, gs *pf.GameState) *vlib.Violation   { return nil }
 
 // expected offer, from the statement
-func expectOffer(gs *pf.GameState, p *pf.PlayerState) (must, mustNot []string) {
+func expectOffer(gs *pf.GameState, p *pf.PlayerState, minBet, minRaise int64) (must, mustNot []string) {
 	if p.Fold || p.StackSize == 0 {
 		return []string{"pass"}, []string{"allin", "fold", "check", "call", "bet", "raise", "pay"}
 	}
@@ -301,16 +330,17 @@ func expectOffer(gs *pf.GameState, p *pf.PlayerState) (must, mustNot []string) {
 		must = append(must, "check")
 		mustNot = append(mustNot, "fold", "call")
 	}
-	if facing && p.InitialStackSize > cw {
+	s0 := stack0(p)
+	if facing && s0 > cw {
 		must = append(must, "call")
 	}
-	if cw == 0 && p.InitialStackSize >= gs.Status.MiniBet {
+	if cw == 0 && s0 >= minBet {
 		must = append(must, "bet")
 	}
 	if cw != 0 {
 		mustNot = append(mustNot, "bet")
 	}
-	if cw != 0 && p.InitialStackSize > cw+gs.Status.PreviousRaiseSize && p.InitialStackSize >= gs.Status.MiniBet {
+	if cw != 0 && s0 > cw+minRaise && s0 >= minBet {
 		must = append(must, "raise")
 	}
 	if cw == 0 {
@@ -319,7 +349,7 @@ func expectOffer(gs *pf.GameState, p *pf.PlayerState) (must, mustNot []string) {
 	return
 }
 
-func checkOffer(gs *pf.GameState) *vlib.Violation {
+func checkOffer(gs *pf.GameState, minBet, minRaise int64) *vlib.Violation {
 	if gs.Status.CurrentEvent != "RoundStarted" {
 		return nil
 	}
@@ -328,8 +358,8 @@ func checkOffer(gs *pf.GameState) *vlib.Violation {
 		return vlib.V("C11", "no-current-player", "current player %d", cp)
 	}
 	p := gs.Players[cp]
-	d := fmt.Sprintf("seat %d offered %v; fold=%v stack=%d stack0=%d wager=%d cw=%d prs=%d minibet=%d round=%s", p.Idx, p.AllowedActions, p.Fold, p.StackSize, p.InitialStackSize, p.Wager, gs.Status.CurrentWager, gs.Status.PreviousRaiseSize, gs.Status.MiniBet, gs.Status.Round)
-	must, mustNot := expectOffer(gs, p)
+	d := fmt.Sprintf("seat %d offered %v; fold=%v stack=%d stack0=%d wager=%d cw=%d minimum raise=%d minimum bet=%d round=%s", p.Idx, p.AllowedActions, p.Fold, p.StackSize, stack0(p), p.Wager, gs.Status.CurrentWager, minRaise, minBet, gs.Status.Round)
+	must, mustNot := expectOffer(gs, p, minBet, minRaise)
 	for _, a := range must {
 		if !hasStr(p.AllowedActions, a) {
 			return vlib.V("C11", "offer-missing/"+a, "%s", d)
@@ -351,8 +381,24 @@ func checkOffer(gs *pf.GameState) *vlib.Violation {
 }
 
 func (m *offerMon) Observe(h *Hand, t *Trans) *vlib.Violation {
-	if v := checkOffer(t.Post); v != nil {
-		return v
+	m.book.observe(h, t)
+	if m.book.known {
+		if v := checkOffer(t.Post, miniBet(h.Cfg), m.book.minR); v != nil {
+			return v
+		}
+	}
+	// a fold is for good, and only the folder's flag changes
+	for i, q := range t.Post.Players {
+		o := t.Pre.Players[i]
+		if o.Fold && !q.Fold {
+			return vlib.V("C11", "fold-undone", "after %s seat %d is no longer folded", t.Op, i)
+		}
+		if !o.Fold && q.Fold && !(t.Op.K == "act" && t.Op.A == "fold" && t.Err == nil && i == t.Pre.Status.CurrentPlayer) {
+			return vlib.V("C11", "folded-without-folding", "after %s seat %d is marked folded", t.Op, i)
+		}
+	}
+	if t.Op.K == "act" && t.Op.A == "fold" && t.Err == nil && !t.Post.Players[t.Pre.Status.CurrentPlayer].Fold {
+		return vlib.V("C11", "fold-without-effect", "after %s the seat is not marked folded", t.Op)
 	}
 	if t.Op.K != "act" {
 		return nil
@@ -363,12 +409,12 @@ func (m *offerMon) Observe(h *Hand, t *Trans) *vlib.Violation {
 	bs, as := pre.Status, post.Status
 	act, x := t.Op.A, t.Op.X
 	d := func() string {
-		return fmt.Sprintf("%s err=%v | before: wager=%d stack=%d stack0=%d cw=%d prs=%d | after: wager=%d stack=%d cw=%d prs=%d event=%s", t.Op, t.Err, bp.Wager, bp.StackSize, bp.InitialStackSize, bs.CurrentWager, bs.PreviousRaiseSize, ap.Wager, ap.StackSize, as.CurrentWager, as.PreviousRaiseSize, as.CurrentEvent)
+		return fmt.Sprintf("%s err=%v | before: wager=%d stack=%d stack0=%d cw=%d prs=%d | after: wager=%d stack=%d cw=%d prs=%d event=%s", t.Op, t.Err, bp.Wager, bp.StackSize, stack0(bp), bs.CurrentWager, bs.PreviousRaiseSize, ap.Wager, ap.StackSize, as.CurrentWager, as.PreviousRaiseSize, as.CurrentEvent)
 	}
 	// evidence: boundary situations
-	s0 := bp.InitialStackSize
+	s0 := stack0(bp)
 	near := func(a, b int64) bool { return a-b <= 1 && b-a <= 1 }
-	if near(s0, bs.CurrentWager) || near(s0, bs.CurrentWager+bs.PreviousRaiseSize) || near(s0, bs.MiniBet) {
+	if near(s0, bs.CurrentWager) || near(s0, bs.CurrentWager+m.book.minR) || near(s0, miniBet(h.Cfg)) {
 		h.Facts["boundary-stack"] = true
 	}
 	// nobody else's chips move in any action
